@@ -1,3 +1,4 @@
 pub mod est;
 pub mod policy;
+pub mod schema;
 pub mod text;
